@@ -25,8 +25,13 @@ structure St where
   lastIndex : Nat := 0
 deriving Repr
 
+/-- Go's `int` (64 bits, two's complement): the library's score arithmetic wraps.  The adjacency bonus triples with every
+    adjacent matched character, so it passes 2^63 after about forty of them - a perfect 42-character match really gets a
+    negative score from the library (found by the thorough tier, DESIGN 13.6) - and the model follows it. -/
+def wrap64 (x : Int) : Int := (x + 9223372036854775808) % 18446744073709551616 - 9223372036854775808
+
 def adjacentCharBonus (i : Nat) (lastMatch : Nat) (cur : Int) : Int :=
-  if lastMatch == i then cur * 2 + 5 else 0
+  if lastMatch == i then wrap64 (cur * 2 + 5) else 0
 
 /-- one iteration of the inner loop at byte offset `j` on rune `candidate`, `nextc` = next rune (0 at the end) -/
 def stepRune (ri : RuneInfo) (pat : Array Nat) (s : St) (j candidate nextc : Nat) : Except Panic St :=
@@ -42,7 +47,7 @@ def stepRune (ri : RuneInfo) (pat : Array Nat) (s : St) (j candidate nextc : Nat
           match s.matched with
           | lastMatch :: _ =>
             let bonus := adjacentCharBonus s.lastIndex lastMatch s.currAdj
-            (sc3 + bonus, s.currAdj + bonus)
+            (wrap64 (sc3 + bonus), wrap64 (s.currAdj + bonus))
           | [] => (sc3, s.currAdj)
         if sc4 > s.bestScore then { s with bestScore := sc4, matchedIndex := j, currAdj := adj }
         else { s with currAdj := adj }
@@ -55,7 +60,7 @@ def stepRune (ri : RuneInfo) (pat : Array Nat) (s : St) (j candidate nextc : Nat
             let penalty : Int := s1.matchedIndex * (-5)
             s1.bestScore + (if penalty > -15 then penalty else -15)
           else s1.bestScore
-        { s1 with score := s1.score + best, matched := s1.matchedIndex.toNat :: s1.matched,
+        { s1 with score := wrap64 (s1.score + best), matched := s1.matchedIndex.toNat :: s1.matched,
                   bestScore := -1, patternIndex := s1.patternIndex + 1 }
       else s1
     .ok { s2 with lastIndex := j, last := candidate }
